@@ -4,5 +4,7 @@ CONSTANTS
   OneFifo = TRUE
   CrossTag = FALSE
   Reuse = FALSE
+  Handover = FALSE
+  Requeue = FALSE
 INVARIANT Done
 CHECK_DEADLOCK FALSE
